@@ -33,6 +33,7 @@ import (
 	"github.com/google/tink/go/keyset"
 	tinkpb "github.com/google/tink/go/proto/tink_go_proto"
 	tinksubtle "github.com/google/tink/go/signature/subtle"
+	"golang.org/x/crypto/chacha20poly1305"
 
 	"github.com/hyperledger/aries-framework-go/component/kmscrypto/crypto/tinkcrypto"
 	secpsubtle "github.com/hyperledger/aries-framework-go/component/kmscrypto/crypto/tinkcrypto/primitive/secp256k1/subtle"
@@ -848,6 +849,22 @@ func primOf(kh *keyset.Handle) map[uint32]string {
 	return out
 }
 
+// nonceConst: nonce size of the primitive of key id, from the primitives' own constants.
+func nonceConst(kh *keyset.Handle, id uint32) int {
+	switch primOf(kh)[id] {
+	case "PGcm":
+		return aeadsubtle.AESGCMIVSize
+	case "PChacha":
+		return chacha20poly1305.NonceSize
+	case "PXChacha":
+		return chacha20poly1305.NonceSizeX
+	case "PCbcHmac":
+		return 16
+	}
+
+	return 0
+}
+
 func coqKeyset(kh *keyset.Handle) string {
 	info := kh.KeysetInfo()
 	prims := primOf(kh)
@@ -928,6 +945,12 @@ func (e *env) aeadCase(kind, kt string, enc, dec *keyset.Handle, alt string, pos
 
 		rec.Oracle, rec.Sig = "fail", "aead:"+kt+":"+what
 		rec.Detail = fmt.Sprintf("%s alt=%s@%d enc keyset %v dec keyset %v: accepted=%v (%v)", kt, alt, pos, enc.KeysetInfo(), dec.KeysetInfo(), acc, derr)
+	}
+
+	// the returned nonce is exactly the nonce of the primary's primitive (its Go constant)
+	if want := nonceConst(enc, id); want != 0 && len(nonce) != want && rec.Oracle == "ok" {
+		rec.Oracle, rec.Sig = "fail", "aead:"+kt+":nonce-size"
+		rec.Detail = fmt.Sprintf("Encrypt returned a %d byte nonce, the primary primitive uses %d", len(nonce), want)
 	}
 
 	// the returned pair, re-joined with the primary's prefix, must be a ciphertext real Tink accepts directly
